@@ -244,3 +244,36 @@ class SC__visit_call(Contract):
 
     def post(self, e, ctx, result, old):
         return dict(ctx_frame(ctx, old.ctx), none=result is None, uses_bound=uses_bound(self, e, ctx.env))
+
+
+class SC__visit_list_comp(Contract):
+    target = 'fpy2.analysis.syntax_check:SyntaxCheckInstance._visit_list_comp'
+    params = {'self': 'SyntaxCheckInstance', 'e': 'ListComp', 'ctx': '_Ctx'}
+    overrides = {'e.targets': 'KeySeq[TupleBinding]', 'e.iterables': 'KeySeq[Expr]', 'e.elt': 'Key[Expr]'}
+    returns = 'None'
+    properties = ['C15']
+    modifies = ['self.free_var_args']
+    may_raise = ['FPySyntaxError']
+    loop_types = {0: {'env': '_Env'}}
+    options = {'loop_modifies': {0: ['self.free_var_args']}}
+    note = ('comprehension targets are bound only for the later iterables and the element: generator i is checked in '
+            'ctx.env + targets[0..i), the element in ctx.env + all targets, and the env of the enclosing statement '
+            '(the ctx object the caller keeps using) is unchanged.  pre same_length = the constructor\'s assert.  '
+            'The loop rebinds the LOCAL name ctx to fresh contexts; `env` is first bound by the body (loop_types).')
+
+    def pre(self, e):
+        return {'same_length': seq_len(e.targets) == seq_len(e.iterables)}
+
+    def axioms(self, e):
+        return lc_fold_def(e, strict_of(self))
+
+    def inv0(self, e, ctx, env, done, old):
+        return {
+            'within_call': ctx.within_call == old.ctx.within_call,
+            'env': forall_keys('NamedId', lambda k: bound(ctx.env, k) == (bound(old.ctx.env, k) or lc_bound_prefix(e, done, k))),
+            'uses': forall_keys('NamedId', lambda k: implies(lc_uses_prefix(e, done, k, strict_of(self)), bound(old.ctx.env, k))),
+            'alias': True if env is None else same_env(env, ctx.env),
+        }
+
+    def post(self, e, ctx, result, old):
+        return dict(ctx_frame(ctx, old.ctx), none=result is None, uses_bound=uses_bound(self, e, ctx.env))
